@@ -106,9 +106,9 @@ def run_scenario(scn):
             async def main(pi=pi, t0=t0, t1=t1, last=last):
                 yr = random.Random(scn["yield_seed"] * 1000 + pi) if scn.get("yield_seed") is not None else None
                 if scn.get("store", "sqlite") == "sqlite":
-                    store = sr.fault_store("sqlite", db, yield_rnd=yr, log=[])
+                    store = sr.fault_store("sqlite", db, yield_rnd=yr, log=[], latency=scn.get("store_latency"))
                 else:
-                    store = mem_store["obj"] or sr.fault_store("memory", None, yield_rnd=yr, log=[])
+                    store = mem_store["obj"] or sr.fault_store("memory", None, yield_rnd=yr, log=[], latency=scn.get("store_latency"))
                     mem_store["obj"] = store
                 proc = sr.Proc(spec, store, idle_timeout=scn["idle_timeout"])
                 starter = asyncio.ensure_future(proc.start())
@@ -165,19 +165,23 @@ def gen_program(rnd, *, n=None, waiter_timeout=None, retry_delay=None):
     ]
     total = n
     if retry_delay is not None:
+        delays = retry_delay if isinstance(retry_delay, list) else [retry_delay]
         steps[0]["acts"].insert(1, {"k": "send", "type": "EvA", "items": [{}]})
         steps[0]["declare"].append("EvA")
-        steps.append({"name": "flaky", "in": ["EvA"], "nw": 1, "retry": {"wait": {"k": "fixed", "w": retry_delay}, "stop": {"k": "attempt", "n": 3}},
-                      "acts": [{"k": "sleep", "d": 0.25}, {"k": "fail", "n": 1, "exc": "E1"}, {"k": "ret", "type": "EvC"}]})
-        total += 1
+        for i, dly in enumerate(delays):
+            # several steps accept the same event: several delayed retries are pending at once, with different delays
+            steps.append({"name": f"flaky{i}", "in": ["EvA"], "nw": 1, "retry": {"wait": {"k": "fixed", "w": dly}, "stop": {"k": "attempt", "n": 3}},
+                          "acts": [{"k": "sleep", "d": 0.25}, {"k": "fail", "n": 1, "exc": "E1"}, {"k": "ret", "type": "EvC"}]})
+            total += 1
     steps.append({"name": "join", "in": ["EvC"], "nw": 1, "acts": [{"k": "collect", "types": ["EvC"] * total}, {"k": "ret", "type": "StopEvent", "result": "const"}]})
     keys = [f"r>start.0.{i}" for i in range(n)]
     return {"family": "idle", "steps": steps, "timeout": None, "externals": [], "meta": {"n": n, "keys": keys, "waiter_timeout": waiter_timeout, "retry_delay": retry_delay}}, keys
 
 
-def idle_instant(spec):
-    """virtual instant at which the run first becomes idle with every wait registered (reference run, no sends, no release)"""
-    obs, cs = run_scenario({"spec": spec, "idle_timeout": 1e6, "sends": [], "end": 30.0, "store": "memory"})
+def idle_instant(spec, store_latency=None):
+    """virtual instant at which the run first becomes idle with every wait registered (reference run, no sends, no release);
+    measured with the same store latency as the scenario it is a reference for"""
+    obs, cs = run_scenario({"spec": spec, "idle_timeout": 1e6, "sends": [], "end": 60.0, "store": "memory", "store_latency": store_latency})
     idles = [p["t"] for p in cs.tr.pubs if p["etype"] == "WorkflowIdleEvent"]
     n_wait = spec["meta"]["n"]
     regs = [r["t"] for r in cs.tr.rec.of("wait_call")]
